@@ -19,7 +19,7 @@ RULE = ('(a) flat: every numeric operator x (boundary pool x boundary pool, exha
         'report / non-zero exit, every build prints exactly the interpreter transcript (hence identical across builds). '
         'Non-trivial = script executes a signed-view operation on a negative value, a shift/rotate with count >= width, an '
         'unaligned access, a float->int conversion near a boundary, an overflowing multiply/add, or the module is built with a '
-        'sanitizer cell; distinct by (module, cell).')
+        'sanitizer cell; distinct by (module, cell). Makers include switch-like functions (br_table with thousands of entries) and dense-switch functions of 100-400 nested blocks (block nesting only).')
 ASSUME = ['reference interpreter calibrated against the spec suite', 'gcc 12.2 / clang 14 sanitizers report what they document',
           'signalling-NaN immediates/arguments are excluded by construction (known finding C02-snan-*)']
 
